@@ -14,6 +14,8 @@ Decided:
  Z4 backing lifetime: (a) the DMA region whose address is sent in attach-backing is moved into the driver object on
     every Ok path of that operation; (b) every clearing (= None / take) of a stored backing region is preceded on all
     paths by the detach for that resource; (c) drop order is C09.R1; the page count derives from the attached length.
+ Z11 clock driver: message type per response structure, Ok only for status 0, clock-type / smearing codes decoded per table
+    and smearing decoded only for the smeared-UTC type; scalar results come from the response.
  Z8 the blocking PCM transfer returns Ok only through the edge on which the period iterator is exhausted.
  Z7 in-flight PCM buffers are removed from the token maps only after pop_used succeeded (no removal before the fallible pop).
  Z5 PCM transfer shape: readable [stream id bytes, chunk] (non-blocking: one buffer), writable [status]; an add only
@@ -62,6 +64,12 @@ def run(F, R):
     z7_release_after_pop(F, R, M, roles)
     z8_pcm_complete(F, R, M, roles)
     z6_edid(F, R)
+    # Z9: the command queues run in the negotiated modes (C08.H3)
+    from .C08 import queue_modes_rule
+    queue_modes_rule(F, R, M, 'Z9', ['device::gpu', 'device::sound', 'device::rng', 'device::rtc', 'device::virtio_9p'])
+    # Z10: returned values equal what the device reported: integer -> enum decoding tables agree with the enums' codes
+    decode_tables_rule(F, R, 'Z10', ['device::'])
+    z11_rtc(F, R, M, roles)
 
 
 def z1_encodings(F, R):
@@ -276,6 +284,22 @@ def z3_z4_gpu(F, R, M, roles):
             ok = ok and bool(tl)
             R.check(ok, 'Z3', '%s:%s-before-%s' % (b['name'], first, then), fn_site(F, b['id']), '%s precedes %s on every successful path' % (first, then),
                     '%s: %s is not always preceded by %s' % (b['name'], then, first))
+        # the caller's image reaches the backing before it is transferred: a copy_from_slice from the slice parameter into the
+        # freshly allocated region precedes transfer_to_host_2d
+        fn_ = sg.entry_fn
+        img = [i + 1 for i, l_ in enumerate(fn_['locals'][1:fn_['arg_count'] + 1]) if l_['ty'].endswith('[u8]')]
+        if img and 'transfer_to_host_2d' in calls and b['name'] != 'flush':
+            copies = []
+            for c_ in sg.calls(lambda d: d.get('fn', '').endswith('::copy_from_slice')):
+                src = S.operand(c_.id, c_.d['args'][1])
+                dst = S.operand(c_.id, c_.d['args'][0])
+                if derives_from(src, lambda x: x == ('param', img[0])) and any(
+                        x[0] == 'call' and F.bodies.get(x[2], {}).get('impl_adt') == M.dma_adt for x in deep_subterms(S, dst)):
+                    copies.append(c_.id)
+            tr = [n.id for n in calls['transfer_to_host_2d']]
+            okc = bool(copies) and all(sg.always_before(copies, t_) for t_ in tr)
+            R.check(okc, 'Z3', '%s:image-copied-before-transfer' % b['name'], fn_site(F, b['id']), 'the caller\'s image is copied into the backing before the transfer',
+                    '%s transfers the backing to the host without first copying the caller\'s image into it: the device shows the zeroed allocation' % b['name'])
         # Z4 for operations that attach a freshly allocated region
         att = calls.get('resource_attach_backing', [])
         for a in att:
@@ -594,6 +618,89 @@ def z8_pcm_complete(F, R, M, roles, rule='Z8'):
                 '%s can return Ok without having exhausted the frames (e.g. when the queue is momentarily full and the ring indices coincide): the remaining '
                 'periods are dropped and the requests still in flight are never popped - their buffers stay shared with the device' % b['name'])
     R.count('pcm_blocking_loops', n)
+
+
+RTC = 'device::rtc::VirtIORtc'
+RTC_MSG = {'VirtioRtcRespCfg': 0x1000, 'VirtioRtcRespClockCap': 0x1001, 'VirtioRtcRespCrossCap': 0x1002, 'VirtioRtcRespRead': 0x0001, 'VirtioRtcRespReadCross': 0x0002}
+RTC_CLOCK = {'Utc': 0, 'Tai': 1, 'Monotonic': 2, 'UtcSmeared': 3, 'UtcMaybeSmeared': 4}
+RTC_SMEAR = {'NoonLinear': 1, 'UtcSls': 2}
+
+
+def z11_rtc(F, R, M, roles):
+    """Clock driver (virtio-rtc): request codes by response structure, status check of the shared request helper, and the
+    decoding of the capability response (clock type / smearing variant codes; smearing only decoded for a smeared clock)."""
+    if RTC not in F.adts:
+        return
+    req = [b for b in F.bodies.values() if b.get('impl_adt') == RTC and F.handwritten(b) and b['kind'] == 'AssocFn' and 'Req' in b.get('generics', [])]
+    if len(req) != 1:
+        raise Undecided('generic request helper of the clock driver not found')
+    rid = req[0]['id']
+    # status: Ok only for status 0
+    sg = supergraph(F, rid, opaque=lambda t, bb: bb['id'] in roles, tag='z11')
+    bad = None
+    seen_ok = False
+    for p in PathEnum(sg).run():
+        if p.panicked or err_variant(p.ret) != 'Ok':
+            continue
+        seen_ok = True
+        st = [c for c in p.conds if fmt(c[0]).endswith('.status')]
+        if not st or any(c[1] != ('in', (0,)) for c in st):
+            bad = 'an Ok result is returned on a path where the response status is %s' % ([c[1] for c in st] or 'not examined')
+    R.check(seen_ok and bad is None, 'Z11', 'rtc:status-check', fn_site(F, rid), 'the response is returned only for status VIRTIO_RTC_S_OK (0)', 'clock request helper: %s' % bad)
+    nops = 0
+    for b in F.bodies.values():
+        if b.get('impl_adt') != RTC or not F.handwritten(b) or b['kind'] != 'AssocFn' or not b.get('pub') or b['id'] == rid:
+            continue
+        sgo = supergraph(F, b['id'], opaque=lambda t, bb: bb['id'] == rid or bb['id'] in roles, tag='z11')
+        S = sgo.sym
+        calls = [n for n in sgo.calls(lambda d: d.get('fn') == rid)]
+        if not calls:
+            continue
+        nops += 1
+        for n in calls:
+            rsp = [x.rsplit('::', 1)[1] for x in n.d.get('substs', []) if 'Resp' in x]
+            want = RTC_MSG.get(rsp[0]) if rsp else None
+            v = S.operand(n.id, n.d['args'][1])
+            heads = [x for x in deep_subterms(S, v) if x[0] == 'agg' and x[1].endswith('::VirtioRtcReqHead')]
+            got = fold_const(heads[0][2][0]) if heads and heads[0][2] else None
+            if want is not None:
+                R.check(got == want, 'Z11', 'rtc:%s:message-type' % b['name'], site(sgo, n), 'request for %s carries msg_type %#x' % (rsp[0], want),
+                        '%s sends msg_type %s with a %s response, specification %#x' % (b['name'], hex(got) if got is not None else None, rsp[0] if rsp else '?', want))
+        try:
+            paths = [p for p in PathEnum(sgo).run() if not p.panicked and err_variant(p.ret) == 'Ok']
+        except PathLimit:
+            continue
+        bad = None
+        for p in paths:
+            okv = p.ret[2][0]
+            if okv[0] == 'agg' and okv[1].endswith('::ClockCapabilities'):
+                f = dict(zip(okv[3], okv[2]))
+                kind = [x for x in f.values() if x[0] == 'agg' and '::ClockType::' in x[1]]
+                leap = [x for x in f.values() if x[0] == 'agg' and x[1].startswith('core::option::Option::')]
+                tcond = [c for c in p.conds if fmt(c[0]).endswith('.type_') and c[1][0] == 'in' and len(c[1][1]) == 1]
+                scond = [c for c in p.conds if fmt(c[0]).endswith('.leap_second_smearing') and c[1][0] == 'in' and len(c[1][1]) == 1]
+                if kind:
+                    kname = kind[0][1].rsplit('::', 1)[1]
+                    if not tcond or tcond[-1][1][1][0] != RTC_CLOCK.get(kname):
+                        bad = 'clock type code %s is reported as %s' % (tcond[-1][1][1][0] if tcond else '?', kname)
+                if leap and leap[0][1].endswith('::Some'):
+                    sv = leap[0][2][0][1].rsplit('::', 1)[1] if leap[0][2] and leap[0][2][0][0] == 'agg' else '?'
+                    if not scond or scond[-1][1][1][0] != RTC_SMEAR.get(sv):
+                        bad = 'smearing code %s is reported as %s' % (scond[-1][1][1][0] if scond else '?', sv)
+                    # decoded only on the "is a smeared clock" edge of the comparison of the clock type
+                    for c in p.conds:
+                        d = c[0]
+                        if d[0] == 'bin' and d[1] in ('Eq', 'Ne') and 'ClockType' in fmt(d):
+                            truth = (c[1][0] == 'notin' and 0 in c[1][1]) or (c[1][0] == 'in' and 0 not in c[1][1])
+                            if (d[1] == 'Eq' and not truth) or (d[1] == 'Ne' and truth):
+                                bad = 'a smearing variant is reported on the edge where the clock type is NOT the smeared-UTC type'
+            elif okv[0] != 'agg':
+                # scalar results (number of clocks, clock reading) come from the response
+                if not derives_from(okv, lambda x: x[0] == 'call' and x[2] == rid):
+                    bad = 'the returned value %s does not come from the device response' % fmt(okv)[:60]
+        R.check(bad is None and bool(paths), 'Z11', 'rtc:%s:decode' % b['name'], fn_site(F, b['id']), 'response decoded per the virtio-rtc code tables',
+                'clock driver %s: %s' % (b['name'], bad if bad else 'no successful path'))
+    R.count('rtc_ops', nops)
 
 
 def z6_edid(F, R):
